@@ -97,3 +97,83 @@ def ledger(rnd, n, world="W1", sid="L"):
         steps.append({"op": "skip", "n": rnd.randint(1, 5)})
         out.append({"id": "%s%d" % (sid, k), "world": world, "family": "ledger", "steps": steps})
     return out
+
+
+def durability_histories(rnd, n, sid="D"):
+    """histories in world WD (payout/validator update every even block, price update possible on odd blocks)"""
+    out = []
+    users = ["a1", "a2", "a3", "a4"]
+    for k in range(n):
+        steps = []
+        nblocks = rnd.randint(3, 7)
+        tid = 0
+        for b in range(nblocks):
+            txs = []
+            for _ in range(rnd.randint(0, 2)):
+                tid += 1
+                a = rnd.choice(users)
+                r = rnd.random()
+                if r < 0.5:
+                    txs.append({"id": "t%d" % tid, "type": "Send", "from": a, "args": {"coin": "BIP", "to": rnd.choice(users), "value": amount(rnd, 100)}})
+                elif r < 0.7:
+                    txs.append({"id": "t%d" % tid, "type": "Delegate", "from": a, "args": {"pub": rnd.choice(["v1", "v2"]), "coin": "BIP", "value": "%du" % rnd.randint(1, 50)}})
+                elif r < 0.8:
+                    txs.append({"id": "t%d" % tid, "type": "Lock", "from": a, "args": {"coin": "BIP", "value": "%du" % rnd.randint(1, 9), "due": "h+%d" % rnd.randint(1, 3)}})
+                elif r < 0.9:
+                    txs.append({"id": "t%d" % tid, "type": "VoteUpdate", "from": "o1", "args": {"pub": "v1", "version": "v330", "height": "h+%d" % rnd.randint(1, 2)}})
+                    tid += 1
+                    txs.append({"id": "t%d" % tid, "type": "VoteUpdate", "from": "o2", "args": {"pub": "v2", "version": "v330", "height": "h+%d" % rnd.randint(1, 2)}})
+                else:
+                    txs.append({"id": "t%d" % tid, "type": "SellSwapPool", "from": a, "args": {"coins": ["BIP", "USDTE"], "value": "%du" % rnd.randint(1000, 200000), "min": "0"}})
+            st = {"op": "block"}
+            if txs:
+                st["txs"] = txs
+            if rnd.random() < 0.35:
+                st["hour"] = 13
+                st["dt"] = 86400
+            steps.append(st)
+        out.append({"id": "%s%d" % (sid, k), "world": "WD", "family": "durability", "twin": True, "steps": steps})
+    return out
+
+
+def with_restarts(rnd, hist, copies):
+    """inserts restarts at random block boundaries (including several in a row)"""
+    out = []
+    for h in hist:
+        for c in range(copies):
+            steps = []
+            for st in h["steps"]:
+                steps.append(st)
+                r = rnd.random()
+                if r < 0.35:
+                    steps.append({"op": "restart"})
+                    if r < 0.1:
+                        steps.append({"op": "restart"})
+            steps += [{"op": "restart"}, {"op": "block"}, {"op": "block"}]
+            s = dict(h)
+            s["id"] = "%s.r%d" % (h["id"], c)
+            s["steps"] = steps
+            out.append(s)
+    return out
+
+
+def with_crash(hist, block_index, k, tail=2):
+    """the history up to block_index, whose commit dies after the k-th write, then `tail` more blocks"""
+    steps = []
+    bi = -1
+    for st in hist["steps"]:
+        if st.get("op", "block") == "block":
+            bi += 1
+            if bi == block_index:
+                st = dict(st)
+                st["k"] = k
+                steps.append(st)
+                break
+        steps.append(st)
+    rest = [s for s in hist["steps"] if s.get("op", "block") == "block"][block_index + 1:block_index + 1 + tail]
+    steps += rest + [{"op": "block"}]
+    s = dict(hist)
+    s["id"] = "%s.c%d.%d" % (hist["id"], block_index, k)
+    s["steps"] = steps
+    s["twin"] = True
+    return s
